@@ -240,7 +240,7 @@ def r5_collection(chk: Check):
     chk.require(len(adds) == 1 and len(vals) == 1, chk.fkey(m, "task or values"), "the producing task or else every argument value must be searched", loc)
     if len(adds) == 1 and len(vals) == 1:
         # on every path to exit: the add, or the task-id already seen, or the values loop
-        seen = [b for b in g.live if b.kind == "branch" and b.extra["test"].kind == "test" and "not in taskids" in src(b.extra["test"].ast) and b.extra["polarity"] is False]
+        seen = [b for b in g.live if b.kind == "branch" and b.extra["test"].kind == "test" and " in taskids" in src(b.extra["test"].ast) and b.extra["polarity"] is True]
         chk.require(g.must_pass(g.entry, g.exit, [adds[0][0]] + vals + seen), chk.fkey(m, "task or values on every path"),
                     "some path collects neither the producing task nor the argument values", loc)
         rec = [c for b in vals[0].ast.body for c in walk_local(b) if isinstance(c, ast.Call) and dotted(c.func) == "updatedependencies"]
@@ -362,7 +362,7 @@ def _r6_check_guard(chk: Check):
     chk.min_instances(len(calls), 1, "dependencychanged call in Dependency.check")
     for n, call in calls:
         gs = [(rd.canon(t.ast, t), pol) for t, pol in g.guards(n) if t.kind == "test"]
-        ok = any((txt in ("self.status() != self.currentstatus", "self.currentstatus != self.status()") and pol is True) for txt, pol in gs)
+        ok = any((txt in ("self.status() == self.currentstatus", "self.currentstatus == self.status()") and pol is False) for txt, pol in gs)
         chk.require(ok, chk.fkey(c, "notify only on change"), f"dependencychanged is called under {gs}: it must be called only when the status differs from the recorded one "
                     "(a repeated OK notification would decrement the counter twice and start the job while another dependency is still running)", chk.loc(c.module, call))
         args = [src(a) for a in call.args]
